@@ -39,6 +39,22 @@ var e1Stub = []string{"transport (simulator-owned per-link FIFO queues)", "logge
 
 func init() {
 	Register(&Check{
+		ID: "C01", Engine: "netsim",
+		Real:      []string{"threshold.Scheme via LoudScheme/SilentScheme", "disc.Member", "disc.SilentSynchronizer", "rbc.Receiver", "msg.Box", "mpc/bls TBLS DKG, Sign, Verifier (real pairing crypto)"},
+		Stub:      e1Stub,
+		Rule:      "one case = one seeded run (n, t, mode, dispatch, schedule) of a full BLS DKG followed by the documented sign/aggregate/verify flow over every subset of size >= t for 5 digests; distinct = distinct schedule fingerprint; non-trivial = at least one cross-link delivery-order inversion relative to send order",
+		Assume:    []string{"links are reliable and FIFO per direction", "identity node-id/party-id map, ids < 256 (C06/C13 cover the rest)"},
+		QuickRuns: 1500, QuickSecs: 60, ThorRuns: 30000, ThorSecs: 900, Batch: 25,
+	})
+	Register(&Check{
+		ID: "C13", Engine: "netsim",
+		Real:      []string{"threshold.Scheme (rbcEncoding, membership topic hash)", "disc.Member (tag/view encoding)", "rbc.Receiver", "msg.Box", "mpc/bls TBLS (StoredData / PublicParams ASN.1, Verifier)"},
+		Stub:      append([]string{"MPC backend (scripted, rounds 0..127) in part of the runs"}, e1Stub...),
+		Rule:      "runs 0..454 enumerate all pairs and triples of the boundary identifiers {0,1,127,128,255,256,257,511,512,0x7FFF,0x8000,0xFF00,0xFFFE,0xFFFF}; later runs sample identifiers over the whole 16-bit range; each case is a fault-free session (KeyGen and/or Sign, scripted or BLS backend) run twice, with the drawn ids and with the order-isomorphic ids 1..n; distinct = distinct (identifier tuple, schedule fingerprint); non-trivial = at least one identifier >= 256",
+		Assume:    []string{"links are reliable and FIFO per direction", "identity node-id/party-id map"},
+		QuickRuns: 1200, QuickSecs: 60, ThorRuns: 20000, ThorSecs: 600, Batch: 35,
+	})
+	Register(&Check{
 		ID: "C04", Engine: "netsim",
 		Real:      []string{"threshold.Scheme via LoudScheme/SilentScheme", "disc.Member", "disc.SilentSynchronizer", "rbc.Receiver", "msg.Box"},
 		Stub:      append([]string{"MPC backend (scripted R-round protocol, one round number per broadcast)"}, e1Stub...),
